@@ -1,6 +1,118 @@
 """Python-AST -> Lean translator for the patch life cycle (property C11): order of file-system effects.
 
-DOCSTRING_PLACEHOLDER
+Regenerates `lean/MetadorModel/Gen/PatchSteps.lean` from the current source on every `./check C11` run
+(`write(lean)`, called by `translate(ctx)` in `harness/props/c11.py`). Each translated method becomes a `do` block of
+the world monad `PatchM` (Py/PatchPy.lean): it runs on the Python record object that stands for a state of the record
+model (`Model/Record.lean`), changes that object and the model's disk, and **logs every file-system action it
+performs, in program order** (`World.trace : List (Act Name UB)`: `create f n`, `h5close f rw`, `writeUB f ub`,
+`reopen f rw`, `hashPayload f n`, `writeManifest f u b`, `unlink f`). The bridge theorems, re-checked by `lake build`
+on every run, say
+
+  Gen.<method> (World.ofState s) = <hand-written step sequence> s          (Bridge/PatchSteps{,Create,Discard,Commit,Close}.lean)
+  resOf s (<step sequence> s)    = Record.<operation> s                    (Bridge/PatchStepsModel.lean, nothing generated)
+  every crash state of create ++ writes ++ commit steps is a `Crash.Reach` state   (Bridge/PatchStepsCrash.lean, nothing generated)
+  Gen.Bytes.IH5UserBlock.save = UBlock.saveUB, its writes are one contiguous in-place write of `frame`   (Bridge/PatchStepsSave.lean)
+
+so that the theorems of Props/C11 (about `Crash.Reach`) and of C02/C03 (about `createPatch`, `commitPatch`, …) transfer
+to what the source says now. In particular the ORDER of effects is read off the source: create with mode `x` and 1024
+reserved bytes, close, first user-block write, reopen `r+` (`createTrace`); close, hash from offset 1024, user-block
+write carrying the hash as the LAST write to the container, reopen `r` (`commitTrace`); the manifest sidecar only after
+that; nothing else. A reordering, a dropped or an additional effect, a changed guard or constant changes the generated
+text and breaks the `gen_*` theorem of that method (one bridge module per method, so the replay names it).
+
+Translated (source lines of the pinned tree; found by name, not by line number)
+  src/metador_core/ih5/record.py
+      `USER_BLOCK_SIZE`, `FORMAT_MAGIC_STR`                                   (l. 32, 35)
+      `IH5UserBlock.create`, field defaults of the class, `_userblock_size`   (l. 61-101)
+      `IH5UserBlock.save` (byte level, namespace `Gen.PatchSteps.Bytes`)      (l. 137-150)
+      `IH5Record._has_writable`, `mode`, `_expect_open`, `_expect_not_ro`     (l. 198-204, 506-508, 290-292, 528-530)
+      `IH5Record._ublock`, `_set_ublock`                                      (l. 228-235)
+      `IH5Record._new_container`                                              (l. 237-246)
+      `IH5Record.create_patch`, `_delete_latest_container`, `discard_patch`   (l. 532-563)
+      `IH5Record.commit_patch`, `close`                                       (l. 565-590, 510-526)
+  src/metador_core/ih5/manifest.py
+      `IH5MFRecord.MANIFEST_EXT`, `_manifest_filepath`, `manifest`            (l. 121, 139-142, 126-131)
+      `IH5MFRecord.commit_patch` (incl. try/except and `super().commit_patch`) (l. 226-257)
+  plus the fixed text `dispatch_commit_patch` (`self.commit_patch()` inside `close`: the method of the class of the
+  object; the translator checks that `IH5MFRecord(IH5Record)` overrides `commit_patch` and none of the other methods).
+
+Value dictionary (fixed; Lean side: `Py/PatchPy.lean`, `Py/UBSavePy.lean`, tables in their headers)
+  `h5py.File` object ↦ H5 (name, `.mode == "r+"`, `bool(f)`); `f.filename` ↦ f.name; `f.mode` ↦ pyH5Mode f (h5py reports
+      "r+" for every writable handle); `bool(f)` ↦ f.live
+  `h5py.File(p, "x", userblock_size=n)` ↦ pyH5Create p n (OSError if this object holds p open, FileExistsError if p
+      exists; logs `create p n`); `h5py.File(p, "r+"|"r")` ↦ pyH5Open p true|false (logs `reopen`); other modes: error
+  `f.close()` ↦ pyH5Close f, or pyH5CloseAt i when f is (an alias of) the list element `self.__files__[i]` (the element
+      itself is closed, as in Python; logs `h5close name rw` if it was live)
+  `IH5UserBlock` ↦ Record.UB, value semantics; fields record_uuid/patch_index/patch_uuid/prev_patch/hdf5_hashsum/ub_exts
+      ↦ rid/idx/pid/prev/hash/ext; `cls(k=v, …)` ↦ a structure literal (keyword values evaluated in source order, missing
+      fields from the defaults of the class body); `ub.copy(update={…})` ↦ `{ ub with … }`; `{}` / `dict(x.ub_exts)` ↦ the extension
+  aliasing of user blocks is tracked: a local that is (an alias of) a block stored in `self._ublocks` may not be changed
+      in place, and may not be read after the stored block was changed in place (`commit_patch`) — TranslateError
+  `ub.save(p)` ↦ pyUBSave ub p (logs `writeUB p ub`; its bytes: the byte-level translation of `save`);
+      `hashsum_file(p, skip_bytes=n)` ↦ pyHashsumFile p n (digest of a payload = the payload, as in the model; logs `hashPayload p n`)
+  `pathlib.Path` ↦ its base name (FindFiles.Name); `Path(x)`, `str(x)`, `QualHashsumStr(x)` ↦ x; `p.unlink()` ↦ pyUnlink p;
+      `p.is_file()` ↦ pyIsFile p; f-strings of names/str ↦ `++`
+  `self.__files__` / `self._files` ↦ Obj.files; `self._ublocks` ↦ Obj.ublocks (insertion-ordered association list =
+      dict); `l[i]` ↦ pyIdx (negative indices, IndexError), `l[i] = v` ↦ pySetIdx, `l.append(x)`, `l.pop()` ↦ pyPop, `d[k]` ↦
+      pyDictGet (KeyError), `d[k] = v` ↦ pyDictSet, `del d[k]` ↦ pyDictDel; `len(l)` ↦ l.length; truth value of a list /
+      of `kwargs` ↦ pyTruthyList; in-place mutations read the container AFTER their arguments were evaluated
+  `self._closed`, `_allow_patching`, `_manifest` ↦ Obj.closed / allow / manifest; `type(self)` ↦ Obj.mfcls
+  `uuid1()` ↦ pyUuid1 (the model's counter); `self._next_patch_filepath()` ↦ pyNextPatchFilepath (translated and
+      bridged by C03); `self._fresh_manifest()` ↦ pyFreshManifest (translated by C05): needs `_ublock(-1)`, two fresh numbers
+  `IH5Manifest` ↦ (uuid, body) : Nat × Nat; `mf.manifest_uuid` ↦ mf.1; `qualified_hashsum(bytes(mf))` ↦ mf.2;
+      `mf.manifest_exts [= x]` ↦ pyMfExts / pyMfWithExts (the body is a fresh number whatever it holds); `mf.save(p)` ↦
+      pyManifestSave (logs `writeManifest`); `IH5UBExtManifest(is_stub_container=s, manifest_uuid=u, manifest_hashsum=h)
+      .update(ub)` ↦ `ub := pyExtUpdate s u h ub` (the stub flag is not part of Record.UB)
+  `**kwargs` ↦ Kw (names with opaque values); `kwargs.pop(k, d)` ↦ pyKwPop; `f(**kwargs)` ↦ passing it on
+  `x is None` / `is not None` ↦ `.isNone` / `.isSome`; `X if v is None else Y` ↦ `match v with | none => X | some v => Y`;
+      `isinstance(obj, h5py.File)` ↦ the constructor test of FileOrInt; `if self._manifest is None: raise …` + rest ↦ a
+      `match` binding the value; `and` / `or` / `not` on truth values (right operand evaluated only if needed); `==`, `!=` on
+      str/int/bool, `<`,`<=` on non-negative ints; `a if c else b` and `if c: x = a / else: x = b` alike
+  `raise E(msg)` ↦ `throw Out.e` (ValueError, FileNotFoundError, FileExistsError, OSError, KeyError, IndexError,
+      AssertionError; the message is not translated); `try: … except E as e: …; raise e` ↦ tryCatch + match on the class
+  `for f in self.__files__: body` ↦ pyForFiles (fun i => body), f an alias of element i
+  evaluation order: every call with an effect is bound to a temporary in Python's left-to-right order
+  byte level (`save`): `self.json()` ↦ render self; `f"{n}"` of `_userblock_size` ↦ pyStrNat n; str/bytes ↦ List Char,
+      `.encode("utf-8")` ↦ identity (ASCII); `with open(filename, "r+b") as f:` ↦ pyWithOpen; `f.read(n)`, `f.seek(k)`,
+      `f.write(b)` ↦ fRead / fSeek / fWrite (in-place overwrite at the offset); `assert c` ↦ `throw tooLong` unless c;
+      `raise ValueError` ↦ `throw noUserBlock`
+
+Anything else (other statements, calls, attributes, decorators, parameter lists, an override of a translated method in
+IH5MFRecord, `__getattr__` tricks) raises TranslateError naming what was not understood; the methods that could be
+translated are still written, the check records `translate:C11` as undischarged and the bridge modules of the methods
+left out do not build.
+
+NOT translated, tied by the correspondence run / oracle only: `_create`, `_open`, `_check_ublock`, `__init__`,
+`merge_files`, `delete_files`, `IH5UserBlock.load` / `_read_head_raw` (C04's model), `IH5Manifest.save` and
+`from_userblock`, `_fresh_manifest`, `_next_patch_filepath` (C03), `hashsum_file` itself, everything HDF5 does inside a
+container, the text of exception messages, the values of keyword arguments, `create_stub`. Hypotheses of the
+`*_model` theorems: `PyRep s.h` (no two files of the handle share a name — `_ublocks` is a dict; "last file is r+"
+presupposes a last file) and `OnDisk s` (the writable container was not removed behind the back of the process; implied
+by C02's invariant, `onDisk_of_inv`). Outside `OnDisk` the source leaves the newest handle closed / the new in-memory
+block in place when `hashsum_file` raises FileNotFoundError, where the record model says "state unchanged": a deviation
+of the model in a corner the properties exclude (external deletion), recorded here, not repaired.
+
+Mutation tests (METADOR_REPO=<scratch worktree>; bridge modules rebuilt; * = whole `./check C11` run, exit 1, replay names
+the broken obligations)
+  behaviour-changing edits, each breaks the bridge theorem of its method: manifest written before the base-class commit *,
+  a second `save` in commit_patch *, `f.close()` dropped in `_new_container` *, hash computed before `cfile.close()` *,
+  `skip_bytes=512`, `userblock_size=512`, `_has_writable` guard dropped in create_patch, `len(..) == 2` in discard_patch,
+  `and` -> `or` in close, restore of the user block dropped in the manifest class, reopen "r+" instead of "r" after commit,
+  `MANIFEST_EXT = ".mf.json"`, `patch_index` without `+ 1`, `hdf5_hashsum` inherited in `create`, NUL byte dropped /
+  `seek(4)` in `save`, unlink before close in `_delete_latest_container`.
+  Seeded changes: C11-s1 (`path.is_file(): path.unlink()` in create_patch) translates, gen_create_patch breaks;
+  C11-s4 (commit first, second user-block write) translates, gen_mf_commit_patch breaks; C11-s3 (`_manifest_filepath` via
+  `with_name`) is outside the fragment: TranslateError, gen_manifest_filepath / gen_mf_commit_patch / gen_close
+  undischarged. C11-s2, -t1, -t2, -t3 touch `__init__` / `_open` / `find_files`: not translated here (C03/C04 translate them).
+  behaviour-preserving edits that stay green (applied together, whole check, exit 0): renamed locals / loop and handler
+  variables, comments and docstrings, reordered independent statements (`_ublock(-1)` before `_next_patch_filepath()`, the
+  two `kwargs.pop`, `_closed = True` before `__files__ = []`), temporaries introduced or inlined, conditional expression <->
+  if-statement (`mode`, `_ublock`), `return self.f()` <-> `self.f(); return None`, `raise e` <-> bare `raise`,
+  `QualHashsumStr(..)` moved.
+  Known to break the tie although harmless: dropping `_expect_open()` from commit_patch / discard_patch (a closed record
+  has no files, so `_has_writable` refuses anyway — but the model also has closed handles with files), swapping two guards
+  that raise different exception classes, `len(..) <= 1` for `== 1`, a `while` loop or `enumerate`, `with` for the h5py
+  handles, helper functions / new attributes, logging calls, `assert`s in the record-level methods.
 """
 import ast
 import os
@@ -775,6 +887,10 @@ class FnCalls(Fn):
             if v.ty == "mf":
                 return self.effect_call("pyManifestSave", [v.lean, p.lean], "unit")
             raise self.err("save() of a %s" % (str(v.ty),), e)
+        if m == "is_file":
+            self.args_of(e, 0)
+            v = self.coerce(self.ex(f.value), "name", e)
+            return self.effect_call("pyIsFile", [v.lean], "bool", effect=False)
         if m == "unlink":
             self.args_of(e, 0)
             v = self.coerce(self.ex(f.value), "name", e)
